@@ -242,7 +242,10 @@ def run(facts, rep, ctx):
     bch_sequence(facts, rep, R1, R4)
     magic(facts, rep, R2)
     fallible(facts, rep, R3)
+    length_minus(facts, rep, R3)
     assembly(facts, rep, R4)
+    R5 = rep.rule("R20.5", "TPL payload sizes: GX block dimensions, size = align(h,bh)*align(w,bw)*bytes/pixel, same axis order when re-linearised", floor=15)
+    tpl_sizes(facts, rep, R5)
 
 
 def tpl_layout(facts, rep, R1):
@@ -286,6 +289,156 @@ def tpl_layout(facts, rep, R1):
         rep.ok(R1, {"tpl": "file pointers", "count": fp})
     else:
         rep.violation(R1, "mila::tpl", "tpl-fileptr", "only %d FilePtr::parse uses in the TPL readers (images, image, palette, palette_data, image_data expected)" % fp, "src/tpl.rs")
+
+
+GX_BLOCKS = {"I4": (8, 8), "I8": (8, 4), "IA4": (8, 4), "IA8": (4, 4), "RGB565": (4, 4), "RGB5A3": (4, 4), "RGBA8": (4, 4),
+             "CI4": (8, 8), "CI8": (8, 4), "CI14X2": (4, 4), "CMPR": (8, 8)}
+GX_BYTES = {"RGB5A3": ("mul", 2), "RGBA8": ("mul", 4), "CI8": ("mul", 1), "I8": ("mul", 1), "IA4": ("mul", 1), "IA8": ("mul", 2),
+            "RGB565": ("mul", 2), "CI14X2": ("mul", 2), "I4": ("div", 2), "CI4": ("div", 2)}
+
+
+def tpl_sizes(facts, rep, R5):
+    """TPL payload sizes: GX block dimensions (width x height), size = align(h, bh) * align(w, bw) * bytes/pixel,
+    and the same (width, height) order when the image is re-linearised."""
+    fmt_adt = facts.adts.get("mila::tpl::TplImageFormat")
+    bd = facts.body("mila::tpl::TplImageFormat::block_dimensions")
+    bs = facts.body("mila::tpl::TplImageFormat::byte_size_of_image")
+    if not fmt_adt or bd is None or bs is None:
+        rep.inconc(R5, "TPL size functions not found")
+        return
+    vn = {v["discr"]: v["name"] for v in fmt_adt["variants"]}
+
+    def variants_of(body, p):
+        vs = set(vn.values())
+        for (bb, term, vals, neg, dty) in p.conds:
+            if term[0] == "discr" and strip_refs(term[1])[0] == "param" and strip_refs(term[1])[1] == 1:
+                names = set(vn[v] for v in vals if v in vn)
+                vs = vs - names if neg else vs & names
+        return vs
+    table = {}
+    for p in enum_paths(bd):
+        if p.end == "ret" and p.ret[0] == "agg" and p.ret[1] == "tuple" and all(x[0] == "const" for x in p.ret[4]):
+            for v in variants_of(bd, p):
+                table[v] = tuple(x[1] for x in p.ret[4])
+    for v, want in sorted(GX_BLOCKS.items()):
+        if table.get(v) == want:
+            rep.ok(R5, {"format": v, "block": "%dx%d" % want})
+        else:
+            rep.violation(R5, bd.name, "block:" + v, "TPL format %s has block dimensions %s (width, height); GX uses %s" % (v, table.get(v), want), "%s:%s" % (bd.file, bd.line))
+    # size formula
+    bad = None
+    factors = {}
+    for p in enum_paths(bs):
+        if p.end != "ret":
+            continue
+        r = p.ret
+        while r[0] == "cast":
+            r = r[1]
+        if r[0] == "field" and r[1][0] == "bin":
+            r = ("bin", r[1][1].replace("WithOverflow", ""), r[1][2], r[1][3])
+        op, k = "mul", 1
+        base = r
+        if r[0] == "bin" and r[1] in ("Mul", "Div") and r[3][0] == "const":
+            op, k, base = ("mul" if r[1] == "Mul" else "div"), r[3][1], r[2]
+        if base[0] == "field" and base[1][0] == "bin":
+            base = ("bin", base[1][1].replace("WithOverflow", ""), base[1][2], base[1][3])
+        ok_base = False
+        if base[0] == "bin" and base[1] == "Mul":
+            sides = []
+            for side in (base[2], base[3]):
+                if side[0] == "call" and side[1].endswith("texture_utils::align") and len(side[2]) == 2:
+                    dim = [x[1] for x in walk(side[2][0]) if x[0] == "param"]
+                    blk = side[2][1]
+                    comp = blk[3] if (blk[0] == "field" and isinstance(blk[3], int) and any(x[0] == "call" and x[1].endswith("block_dimensions") for x in walk(blk))) else None
+                    sides.append((dim[0] if dim else None, comp))
+            # parameters: (self, height, width): height pairs with component 1 (block height), width with 0
+            if sorted(sides, key=str) == sorted([(2, 1), (3, 0)], key=str):
+                ok_base = True
+            else:
+                bad = "payload rows/columns are aligned as %s (parameter, block component); specified height->block height (1), width->block width (0)" % sides
+        else:
+            bad = "size is not align(height, bh) * align(width, bw) scaled per format"
+        for v in variants_of(bs, p):
+            factors[v] = (op, k)
+    if bad:
+        rep.violation(R5, bs.name, "size-base", "TPL byte_size_of_image: " + bad, "%s:%s" % (bs.file, bs.line))
+    else:
+        rep.ok(R5, {"fn": bs.name, "base": "align(height, block_h) * align(width, block_w)"})
+    for v in ("RGB5A3", "RGBA8", "CI8"):
+        if factors.get(v) == GX_BYTES[v]:
+            rep.ok(R5, {"format": v, "bytes_per_pixel": GX_BYTES[v]})
+        else:
+            rep.violation(R5, bs.name, "bytes:" + v, "TPL format %s payload is base %s %s; GX stores %s %s" % (v, factors.get(v, ("?", "?"))[0], factors.get(v, ("?", "?"))[1], GX_BYTES[v][0], GX_BYTES[v][1]), "%s:%s" % (bs.file, bs.line))
+    odd = {v: f for v, f in factors.items() if v in GX_BYTES and v not in ("RGB5A3", "RGBA8", "CI8") and f != GX_BYTES[v]}
+    if odd:
+        rep.note("TPL size factors of formats without a decoder differ from GX: %s (outside C20: unsupported formats)" % odd)
+    # re-linearisation uses (block_width, block_height) = (.0, .1) consistently
+    ex = facts.body("mila::tpl::Tpl::extract_textures")
+    if ex is not None:
+        nv = ex.named_view()
+        comp = {}
+        for l in range(len(nv.locals)):
+            if nv.is_atom(l) and nv.local_ty(l) == "usize" and len(nv.defs().get(l, [])) == 1:
+                d = nv.definition(l)
+                if d[0] == "field" and isinstance(d[3], int) and any(x[0] == "call" and x[1].endswith("block_dimensions") for x in walk(d)):
+                    comp[l] = d[3]
+        good = None
+        for bb, t in nv.calls():
+            nm = callee_names(t)[1] or ""
+            if nm.endswith("texture_utils::block_to_sequential"):
+                a = [nv.term_of_operand(x) for x in t["args"]]
+                bw = comp.get(a[3][1]) if a[3][0] == "local" else None
+                bh = comp.get(a[4][1]) if a[4][0] == "local" else None
+                good = (bw, bh) == (0, 1)
+        if good:
+            rep.ok(R5, {"fn": ex.name, "block_to_sequential": "(.., block_width=.0, block_height=.1)"})
+        elif good is False:
+            rep.violation(R5, ex.name, "relinearise", "block_to_sequential receives the block dimensions in the wrong order", "%s:%s" % (ex.file, ex.line))
+
+
+def length_minus(facts, rep, R3):
+    """In the container readers no `len(buf) - k` on a buffer filled by a stream read may go unguarded:
+    at a truncation point the read returns 0 bytes and the subtraction underflows (panic / huge slice)."""
+    from c05 import dominating_bounds
+    for fn in ("mila::ctpk::read", "mila::bch::read", "mila::cgfx::read", "mila::tpl::Tpl::extract_textures"):
+        b = facts.body(fn)
+        if b is None:
+            continue
+        ids, ext = facts.reachable_from([b.id])
+        for i in sorted(ids):
+            fb = facts.bodies[i]
+            if not any(fb.name.startswith(p) for p in ("mila::ctpk", "mila::bch", "mila::cgfx", "mila::tpl", "mila::<tpl")):
+                continue
+            filled = set()
+            for bb, t in fb.calls():
+                nm = callee_names(t)[1] or ""
+                if nm.endswith("BufRead::read_until") or nm.endswith("Read>::read_to_end") or nm.endswith("Read>::read"):
+                    for a in t["args"][1:]:
+                        for x in walk(fb.term_of_operand(a)):
+                            if x[0] in ("var", "call") and fb is not None:
+                                filled.add(norm(strip_refs(fb.term_of_operand(a))))
+            cd = None
+            for bb, t in fb.asserts():
+                m = t["msg"]
+                if m["kind"] != "Overflow" or m["op"] != "Sub":
+                    continue
+                a = fb.term_of_operand(m["a"])
+                c = fb.term_of_operand(m["b"])
+                if not (a[0] == "call" and a[1].endswith("::len") and c[0] == "const" and c[1] >= 1):
+                    continue
+                buf = norm(strip_refs(a[2][0]))
+                if buf not in filled:
+                    continue
+                if cd is None:
+                    cd = control_deps(fb)
+                ok = False
+                for op, lhs, rhs in dominating_bounds(fb, bb, cd):
+                    if norm(lhs) == norm(a) and rhs[0] == "const" and ((op == "Ge" and rhs[1] >= c[1]) or (op == "Gt" and rhs[1] >= c[1] - 1) or (op == "Ne" and rhs[1] == 0 and c[1] == 1)):
+                        ok = True
+                if ok:
+                    rep.ok(R3, {"fn": fb.name, "site": "len - %d guarded" % c[1]})
+                else:
+                    rep.violation(R3, fb.name, "len-minus-%d" % c[1], "%s computes len(buffer) - %d on a buffer just filled by a stream read: at a truncation point the read delivers 0 bytes and this underflows (panic) instead of yielding the later I/O error" % (fb.name, c[1]), "%s:%s" % (fb.file, t["line"]))
 
 
 def self_relative(facts, rep, R1):
